@@ -410,10 +410,11 @@ LEVEL_TEXT = ("Machine-checked Coq theorems over a labelled transition system tr
               "of clientDo, Close, and the environment's kills and fault choices): for every interleaving of any number of goroutines, kills, "
               "failing reconnects and Close calls, at most one factory socket is open and it belongs to the current client, every superseded "
               "socket is closed, a lost connection makes the observing call return ClosedError and the next call re-evaluates the config and "
-              "reports count+1, recoverable results change nothing, and Close is final. The model is tied to /repo on every run by replaying "
+              "reports count+1, recoverable results change nothing, and Close is final; a variant that leaves rc.m while configFunc runs is refuted "
+              "(two sockets at a quiescent point, a socket created after Close), which is why a whole reconnect() is one action. The model is tied to /repo on every run by replaying "
               "the boundary logs of real client/server histories against the LTS in the kernel (vm_compute) and by a regenerated "
               "classification table.")
-LEVEL_NOTE = ("Trusted: Coq kernel + vm_compute; hand-written model and log acceptor (tie is sampled: ~40 histories quick); python/Go glue. "
+LEVEL_NOTE = ("Trusted: Coq kernel + vm_compute; hand-written model and log acceptor (tie is sampled: ~50 histories quick; the acceptor cuts the raw log into locked sections itself and rejects overlapping sections); python/Go glue. "
               "No axioms. Not proved: quic-go's loss detection latency; that clientImpl.Close closes its PacketConn (census-checked).")
 TECHNIQUE = "Coq proof (invariant over all interleavings of an atomic-section LTS) + replay of recorded boundary logs against the LTS in vm_compute"
 DESIGN_REF = "DESIGN.md section 4 C16"
